@@ -4,12 +4,15 @@ TRUSTED = TRUSTED_COMMON
 ASSUMPTIONS = ['std::variant and raw pointers have no deserializer in the library: they are serialized only', 'insert-based destinations (set, multiset) are checked on the implementation with sorted input; the theorem treats them as plain sequences',
                'tag-compatible destinations in the theorem: same shape, any sequence kinds, equal fixed extents']
 RULE = ('the same generated programs as C04; for every deserializable type: deserialize the bytes into a fresh object of the same type and re-serialize (must reproduce the bytes and consume all input); '
-        'deserialize EVERY strict prefix of the bytes (must throw); (a) model vs program on both outcomes; (b) program alone: rt=ok and trunc=ok. non-trivial as in C04')
+        'deserialize EVERY strict prefix of the bytes (must throw); deserialize the bytes into a TAG-COMPATIBLE destination type (other sequence containers, pair<->tuple, other optional kinds: must succeed and re-serialize to the same bytes) and, for top-level sequences, '
+        'into a std::array of another extent (must throw); (a) model vs program on round trip and truncation; (b) program alone: rt=ok, trunc=ok, xt=ok, fx=ok. non-trivial as in C04')
 def oracle(c):
     if not c['info']['deser']: return True
     i = c['impl']
     if i['rt'] != 'ok': return 'round trip does not reproduce the value'
     if i['trunc'] != 'ok': return 'a strict prefix of the encoding was accepted'
+    if c['info'].get('xt') and i.get('xt') != 'ok': return 'a tag-compatible destination type does not deserialize the value'
+    if c['info'].get('fx') and i.get('fx') != 'ok': return 'a fixed-size destination of another extent accepted the sequence'
     return True
 def run(ctx): return run_mser_property(ctx, ['bytes', 'rt', 'trunc'], oracle, 'round trip / truncation violated on the implementation', floats=True)
 def search(ctx):
